@@ -3,6 +3,7 @@ import TaRs.Lemmas.Core.CommodityChannelIndex
 import TaRs.Gen.CommodityChannelIndex
 import TaRs.Lemmas.SimpleMovingAverage
 import TaRs.Lemmas.MeanAbsoluteDeviation
+import TaRs.Lemmas.Total.CommodityChannelIndex
 namespace TaRs.Gen.CommodityChannelIndex
 open TaRs TaRs.Rs
 variable {F : Type} [Scalar F]
@@ -41,14 +42,5 @@ theorem nextBar_none_of_mad (s : CommodityChannelIndex F) (b : Bar F)
   unfold tp at h2
   cases h1 : s.sma.next (Scalar.div (Scalar.add (Scalar.add b.close b.high) b.low) (Scalar.lit 3 0 : F)) <;>
     simp [h2]
-
-theorem nextBar_total (s : CommodityChannelIndex F) (b : Bar F) (h : WF s) :
-    ∃ r, s.nextBar b = some r ∧ WF r.1 ∧ r.1.period_fn = s.period_fn := by
-  obtain ⟨⟨sma', a⟩, h1, w1, p1⟩ := SimpleMovingAverage.next_total s.sma (tp b) h.sma
-  obtain ⟨⟨mad', d⟩, h2, w2, p2⟩ := MeanAbsoluteDeviation.next_total s.mad (tp b) h.mad
-  refine ⟨_, nextBar_wiring s b sma' a mad' d h1 h2, ⟨w1, w2, ?_⟩, ?_⟩
-  · simp only at p1 p2 ⊢
-    rw [p1, p2, h.per]
-  · simpa [period_fn, SimpleMovingAverage.period_fn_eq] using p1
 
 end TaRs.Gen.CommodityChannelIndex
